@@ -367,10 +367,14 @@ func c07View(n int, excluded []int, i int) []int {
 	return out
 }
 
+// set by TestVerif_C07_States (which runs first): real runs on code whose admission already diverged may crash the binary
+var c07StatesDiverged int
+
 func TestVerif_C07_States(t *testing.T) {
 	kit.RequireEngine(t)
 	rep := kit.NewReport("C07", "states")
 	defer rep.Write(t)
+	defer func() { c07StatesDiverged = rep.NDivergences() }()
 	behs := kit.LoadCases(t, "behaviours.ndjson")
 	if len(behs) == 0 {
 		t.Fatal("harness: no behaviours")
@@ -591,7 +595,6 @@ func c07ReplayStates(t *testing.T, rep *kit.Report, w *c07World, b kit.V, key st
 	rep.Eval(nt, sample)
 }
 
-
 // c07Payload builds the protocol message (t, s) as it would be on the wire:
 // the sender's own message if it produced one (rewritten for another session /
 // as forged traffic), a real ephemeral key message, or a stand-in.
@@ -755,6 +758,11 @@ func TestVerif_C07_Execute(t *testing.T) {
 	behs := kit.LoadCases(t, "execute.ndjson")
 	budget := time.Duration(kit.IntEnv("VERIF_KEYGEN_BUDGET_S", 1200)) * time.Second
 	for bi, b := range behs {
+		if c07StatesDiverged > 0 {
+			rep.Note("real key generations skipped: the state replay already diverged")
+			rep.Eval("", nil)
+			continue
+		}
 		if rep.NDivergences() > 0 {
 			rep.Note("remaining real key generations skipped after a divergence")
 			rep.Eval("", nil)
